@@ -29,9 +29,12 @@
 (***************************************************************************)
 EXTENDS Integers, Sequences, FiniteSets, TLC, Json
 
-CONSTANTS Scripts,      \* [caller -> sequence of "start" | "stop" | "join"]
+CONSTANTS Scripts,      \* [caller -> sequence of "start" | "stop" | "join" | "shutdown"]   (shutdown = the request alone: RPC / signal)
           MaxThreads,   \* serving threads that may be created
-          JoinFirst     \* start() first waits for a serving thread that has been asked to shut down
+          JoinFirst,    \* start() first waits for a serving thread that has been asked to shut down
+          Foreground,   \* the owning process runs run_until_shutdown() itself (the worker binaries do): a serving thread
+                        \* exists from the beginning and self._thread stays None
+          StopNeedsThread  \* _shutdown_server stops the transport only if has_started, which requires self._thread (as pinned)
 
 Callers == DOMAIN Scripts
 Threads == 1..MaxThreads
@@ -52,7 +55,8 @@ HasStarted == built /\ started /\ cur # 0
 Op(c) == IF pos[c] <= Len(Scripts[c]) THEN Scripts[c][pos[c]] ELSE "done"
 
 Init == /\ pos = [c \in Callers |-> 1] /\ built = TRUE /\ started = FALSE /\ shutdownReq = FALSE /\ cur = 0
-        /\ tpc = [t \in Threads |-> "unborn"] /\ nthreads = 0 /\ notices = <<>> /\ joined = [c \in Callers |-> 0]
+        /\ tpc = [t \in Threads |-> IF Foreground /\ t = 1 THEN "boot" ELSE "unborn"] /\ nthreads = (IF Foreground THEN 1 ELSE 0)
+        /\ notices = <<>> /\ joined = [c \in Callers |-> 0]
 
 StartCS(c) ==
   /\ Op(c) = "start"
@@ -76,6 +80,13 @@ StopReq(c) ==
   /\ joined' = [joined EXCEPT ![c] = cur]
   /\ pos' = [pos EXCEPT ![c] = @ + 1]
   /\ UNCHANGED <<built, started, cur, nthreads, notices>>
+
+ShutdownReq(c) ==
+  /\ Op(c) = "shutdown"
+  /\ shutdownReq' = TRUE
+  /\ tpc' = [t \in Threads |-> IF tpc[t] = "wait" THEN "loop" ELSE tpc[t]]
+  /\ pos' = [pos EXCEPT ![c] = @ + 1]
+  /\ UNCHANGED <<built, started, cur, nthreads, notices, joined>>
 
 Join(c) ==
   /\ Op(c) = "join" /\ ~Alive(joined[c])
@@ -103,7 +114,8 @@ TDeadNote(t) ==
 
 TStopCS(t) ==
   /\ tpc[t] = "stopcs"
-  /\ IF HasStarted THEN built' = FALSE /\ started' = FALSE ELSE UNCHANGED <<built, started>>
+  /\ IF (IF StopNeedsThread THEN HasStarted ELSE built /\ started)
+     THEN built' = FALSE /\ started' = FALSE ELSE UNCHANGED <<built, started>>
   /\ tpc' = [tpc EXCEPT ![t] = "end"]
   /\ UNCHANGED <<pos, shutdownReq, cur, nthreads, notices, joined>>
 
@@ -112,13 +124,13 @@ TEnd(t) ==
   /\ tpc' = [tpc EXCEPT ![t] = "dead"]
   /\ UNCHANGED <<pos, built, started, shutdownReq, cur, nthreads, notices, joined>>
 
-Next == (\E c \in Callers : StartCS(c) \/ StopReq(c) \/ Join(c))
+Next == (\E c \in Callers : StartCS(c) \/ StopReq(c) \/ ShutdownReq(c) \/ Join(c))
         \/ (\E t \in Threads : TBoot(t) \/ TLoop(t) \/ TDeadNote(t) \/ TStopCS(t) \/ TEnd(t))
 Spec == Init /\ [][Next]_vars
 
 \* ---------------------------------------------------------------- properties
 Serving == {t \in Threads : tpc[t] \in {"boot", "loop", "wait"}}
-Quiescent == /\ \A c \in Callers : Op(c) = "done" \/ ~ENABLED (StartCS(c) \/ StopReq(c) \/ Join(c))
+Quiescent == /\ \A c \in Callers : Op(c) = "done" \/ ~ENABLED (StartCS(c) \/ StopReq(c) \/ ShutdownReq(c) \/ Join(c))
              /\ \A t \in Threads : tpc[t] \in {"unborn", "wait", "dead"}
 CallersDone == \A c \in Callers : Op(c) = "done"
 \* never two threads serving the same server object
